@@ -11,12 +11,15 @@
      RunS  = Http1Server.read_headers / read_body / wait on Http1Connection.buf   (_http1.py)
      RunC  = Http1Client.read_headers / read_body
      Done  = mark_done on both connections: reset, and re-dispatch of a non-empty buf (if self.buf: self.state(...))
-   Deviation of the code, modelled as such: ReceiveBuffer.maybe_extract_lines() returns [] for a leading blank line
-   and read_headers then returns without looking at the rest of the buffer -- the request behind it is parsed only
-   when the next DataReceived arrives (or never).
+   Former deviation (DevBlankLineStalls, repaired): ReceiveBuffer.maybe_extract_lines() returns [] for a leading blank
+   line and read_headers used to return without looking at the rest of the buffer.
    The reference outcome (whole-stream delivery) is computed with the same operators (RefW).                  *)
 EXTENDS Mon_Http1Seg, TLC
 CONSTANTS Scenarios, MaxCSeg, MaxSSeg
+
+\* finding C02-F1 (a request behind a blank line was parsed only when the next segment arrived), repaired in /repo
+\* by 89551eb23 -> FALSE describes the current code
+DevBlankLineStalls == FALSE
 
 VARIABLES scn, st, ncseg, nsseg, ended, mon, obs
 vars == <<scn, st, ncseg, nsseg, ended, mon, obs>>
@@ -52,7 +55,9 @@ RunS(s, w) ==
   ELSE IF w.sst = "rh" THEN
     IF w.cpp >= w.cpos THEN w
     ELSE LET t == cs[w.cpp + 1] IN
-      IF t.r = "n" THEN [w EXCEPT !.cpp = @ + 1]          \* deviation: one blank line per call, nothing else
+      IF t.r = "n"        \* maybe_extract_lines() returns [] for a leading blank line
+        THEN IF DevBlankLineStalls THEN [w EXCEPT !.cpp = @ + 1]      \* old code: nothing else in this call
+             ELSE RunS(s, [w EXCEPT !.cpp = @ + 1])                   \* repaired: keep extracting
       ELSE LET hp == PosOf(cs, t.i, "H")
                f == w.nflow + 1
            IN IF hp > w.cpos THEN w
